@@ -435,17 +435,17 @@ Fixpoint rexec_stmt (fuel : nat) (E : env) (s : rstmt) {struct fuel} : xres :=
         end
     | GIf c th el =>
         match reval E c with
-        | RV (VB true) => in_frame (rexec_block f ([] :: E) th)
+        | RV (VB true) => in_scope (length E) (rexec_block f E th)
         | RV (VB false) => match el with
                            | GNoElse => ([], E, Go)
-                           | GElse b => in_frame (rexec_block f ([] :: E) b)
+                           | GElse b => in_scope (length E) (rexec_block f E b)
                            end
         | r => ([], E, Halt (rstop_of r))
         end
     | GWhile c b =>
         match reval E c with
         | RV (VB true) =>
-            let '(o, E1, g) := in_frame (rexec_block f ([] :: E) b) in
+            let '(o, E1, g) := in_scope (length E) (rexec_block f E b) in
             match g with
             | Go | Cont => let '(o2, E2, g2) := rexec_stmt f E1 (GWhile c b) in (o ++ o2, E2, g2)
             | Brk => (o, E1, Go)
@@ -455,7 +455,7 @@ Fixpoint rexec_stmt (fuel : nat) (E : env) (s : rstmt) {struct fuel} : xres :=
         | r => ([], E, Halt (rstop_of r))
         end
     | GLoop b =>
-        let '(o, E1, g) := in_frame (rexec_block f ([] :: E) b) in
+        let '(o, E1, g) := in_scope (length E) (rexec_block f E b) in
         match g with
         | Go | Cont => let '(o2, E2, g2) := rexec_stmt f E1 (GLoop b) in (o ++ o2, E2, g2)
         | Brk => (o, E1, Go)
@@ -499,7 +499,7 @@ with rexec_range (fuel : nat) (E : env) (x : ident) (cur stp step : Z) (b : rblo
   | O => ([], E, Halt OutOfFuel)
   | S f =>
     if range_done cur stp step then ([], E, Go) else
-    let '(o, E1, g) := in_frame (rexec_block f ([(x, VI cur)] :: E) b) in
+    let '(o, E1, g) := in_scope (length E) (rexec_block f ((x, VI cur) :: E) b) in
     match g with
     | Go | Cont =>
         let '(o2, E2, g2) := rexec_range f E1 x (wrap64 (cur + step)) stp step b in (o ++ o2, E2, g2)
@@ -510,7 +510,7 @@ with rexec_range (fuel : nat) (E : env) (x : ident) (cur stp step : Z) (b : rblo
 
 Definition rrun (fuel : nat) (ps : list ident) (av : list Z) (b : rblock) : list line * stop :=
   if negb (Nat.eqb (length ps) (length av)) then ([], Stuck) else
-  let '(o, _, g) := rexec_block fuel [combine ps (map VI av)] b in (o, final g).
+  let '(o, _, g) := rexec_block fuel (combine ps (map VI av)) b in (o, final g).
 
 (* ---------------------------------------------------------------- typing (i64 / bool) *)
 
@@ -608,3 +608,33 @@ Definition rexpr_eq_dec (a b : rexpr) : {a = b} + {a <> b}.
 Proof.
   decide equality; try apply Z.eq_dec; try apply bool_dec; try apply rbop_eq_dec; try apply helper_eq_dec.
 Defined.
+
+(* boolean equality of parsed bodies (sound: see C01/ProofsStmt.v), used to define the grouping
+   class of a whole function by the re-parse of its emitted body *)
+Definition rexpr_eqb (a b : rexpr) : bool := if rexpr_eq_dec a b then true else false.
+
+Fixpoint rstmt_eqb (a b : rstmt) {struct a} : bool :=
+  match a, b with
+  | GLet x m e, GLet x' m' e' => (x =? x') && Bool.eqb m m' && rexpr_eqb e e'
+  | GAssign x e, GAssign x' e' => (x =? x') && rexpr_eqb e e'
+  | GIf c t e, GIf c' t' e' => rexpr_eqb c c' && rblock_eqb t t' && rels_eqb e e'
+  | GWhile c b1, GWhile c' b2 => rexpr_eqb c c' && rblock_eqb b1 b2
+  | GLoop b1, GLoop b2 => rblock_eqb b1 b2
+  | GFor x a z s b1, GFor x' a' z' s' b2 =>
+      (x =? x') && rexpr_eqb a a' && rexpr_eqb z z' && rexpr_eqb s s' && rblock_eqb b1 b2
+  | GPrint e, GPrint e' => rexpr_eqb e e'
+  | GUnit, GUnit | GBreak, GBreak | GContinue, GContinue => true
+  | _, _ => false
+  end
+with rblock_eqb (a b : rblock) {struct a} : bool :=
+  match a, b with
+  | GNil, GNil => true
+  | GCons s r, GCons s' r' => rstmt_eqb s s' && rblock_eqb r r'
+  | _, _ => false
+  end
+with rels_eqb (a b : rels) {struct a} : bool :=
+  match a, b with
+  | GNoElse, GNoElse => true
+  | GElse x, GElse y => rblock_eqb x y
+  | _, _ => false
+  end.
